@@ -148,13 +148,3 @@ Proof.
            cbn in Ht. repeat destruct Ht as [<- | Ht]; try reflexivity. contradiction.
         -- exact Hin.
 Qed.
-
-(* ---- the tables of the source file itself (Gen/GenSrc.v, regenerated on every run) are the model's, with compare length
-   = strlen + 1 (so that strncasecmp also compares the terminator: whole-label match, never a prefix match) ---- *)
-Require Gen.GenSrc.
-Require Import Hex.
-Lemma source_tables :
-  GenSrc.special_tables_parsed = true ->
-  map (fun r => (unhex (fst r), snd r)) GenSrc.reserved_rows_hex = map (fun n => (n, S (length n))) reserved_names /\
-  map (fun r => (unhex (fst r), snd r)) GenSrc.example_rows_hex = map (fun n => (n, S (length n))) example_tlds.
-Proof. intros H. first [discriminate H | (split; vm_compute; reflexivity)]. Qed.
